@@ -2,6 +2,8 @@ package main
 
 import (
 	"fmt"
+	"math"
+	"strings"
 	"sync/atomic"
 	"time"
 
@@ -59,10 +61,27 @@ func mkString(i int) string {
 		return "" // the empty string is a valid key (and a special case of the string hash)
 	case 2:
 		return "k\x00" // embedded NUL
+	case 3, 4:
+		// two 1 KiB keys that differ only in their last byte
+		return longKeyPrefix + string(rune('a'+i))
 	}
 	return fmt.Sprintf("k%d", i)
 }
-func mkInt(i int) int   { return i*7919 + 13 }
+
+var longKeyPrefix = strings.Repeat("0123456789abcdef", 64)
+
+func mkInt(i int) int {
+	switch i {
+	case 0:
+		return 0
+	case 1:
+		return -1
+	case 2:
+		return math.MinInt64
+	}
+	return i*7919 + 13
+}
+
 func mkSkey(i int) skey { return skey{A: int8(i), B: int64(i) * 1000003, C: fmt.Sprintf("s%d", i/3)} }
 
 // ---------------------------------------------------------------------------
